@@ -348,7 +348,7 @@ theorem WF_forceDelG (s : St) (g : Nat) (hI : WF s) : WF (forceDelG s g) := by
       first | done | simp (maxDischargeDepth := 8) only [wfi_invalidateTrackable, wfi_gcImpl, *]
 
 theorem WF.collect (s : St) (hI : WF s) : WF (collect s) :=
-  WF.prims.collect (fun _ _ h => h) (fun _ _ h => h) hI
+  WF.prims.collect (fun _ _ h => h) (fun _ _ h => h) (dropG_of (fun _ _ h => h) WF_forceDelG) hI
 
 /-- `WF` is preserved by every function of the model -/
 theorem WF.stable : Stable WF where
